@@ -1687,11 +1687,13 @@ class DecayGroup(BaseDecayGroup, AmpBase):
             yield None
         else:
             old_chains_idx = self.chains_idx
-            for i in old_chains_idx:
-                self.set_used_chains([i])
-                for j in self.chains[i].factor_iteration(deep=deep - 1):
-                    yield self.chains[i], j
-            self.chains_idx = old_chains_idx
+            try:
+                for i in old_chains_idx:
+                    self.set_used_chains([i])
+                    for j in self.chains[i].factor_iteration(deep=deep - 1):
+                        yield self.chains[i], j
+            finally:
+                self.chains_idx = old_chains_idx
 
     def get_amp(self, data):
         """
@@ -2095,11 +2097,13 @@ class DecayGroup(BaseDecayGroup, AmpBase):
             combine = [[i] for i in range(len(chains))]
         o_used_chains = self.chains_idx
         weights = []
-        for i in combine:
-            self.set_used_res(i)
-            weight = self.sum_amp(data)
-            weights.append(weight)
-        self.set_used_chains(o_used_chains)
+        try:
+            for i in combine:
+                self.set_used_res(i)
+                weight = self.sum_amp(data)
+                weights.append(weight)
+        finally:
+            self.set_used_chains(o_used_chains)
         return weights
 
     def chains_particle(self):
@@ -2113,11 +2117,13 @@ class DecayGroup(BaseDecayGroup, AmpBase):
         combine = combinations(range(len(chains)), 2)
         o_used_chains = self.chains_idx
         weights = {}
-        for i in combine:
-            self.set_used_chains(i)
-            weight = self.sum_amp(data)
-            weights[i] = weight
-        self.set_used_chains(o_used_chains)
+        try:
+            for i in combine:
+                self.set_used_chains(i)
+                weight = self.sum_amp(data)
+                weights[i] = weight
+        finally:
+            self.set_used_chains(o_used_chains)
         return weights
 
     def generate_phasespace(self, num=100000):
